@@ -206,8 +206,133 @@ impl Sub for PinnedSub {
     }
 }
 
+// ---------------------------------------------------------------------------
+// very long tag lists on a small stack
+
+#[derive(Clone, Debug, Serialize, Deserialize)]
+pub struct ManyCase {
+    /// number of 8-byte filler tags (custom type)
+    pub fillers: u32,
+    /// positions (in units of filler tags) at which a module tag is inserted
+    pub modules_at: Vec<u32>,
+    pub filler_type: u32,
+}
+
+pub const SMALL_STACK: usize = 1 << 20;
+
+fn many_region(c: &ManyCase) -> Vec<u8> {
+    let mut v = vec![0u8; 8];
+    let module = mb2_model::encode::conformant_tag(3, 0x3A, 3, 0);
+    let mut at: Vec<u32> = c.modules_at.clone();
+    at.sort_unstable();
+    let mut next = 0usize;
+    for i in 0..=c.fillers {
+        while next < at.len() && at[next] <= i {
+            v.extend_from_slice(&module);
+            mb2_model::encode::pad8(&mut v, 0);
+            next += 1;
+        }
+        if i < c.fillers {
+            v.extend_from_slice(&c.filler_type.to_le_bytes());
+            v.extend_from_slice(&8u32.to_le_bytes());
+        }
+    }
+    v.extend_from_slice(&mb2_model::encode::END_TAG);
+    let l = v.len() as u32;
+    put32(&mut v, 0, l);
+    v
+}
+
+/// A light exercise (no per-item transcript): counts, getters, Debug - run on a
+/// thread with a 1 MiB stack inside the sandbox child, so that stack use that
+/// grows with the number of tags becomes a crash.
+fn many_exercise(ptr: *const u8) -> mb2_model::transcript::Transcript {
+    let p = ptr as usize;
+    let h = std::thread::Builder::new().stack_size(SMALL_STACK).spawn(move || {
+        use mb2_model::panics::catch;
+        let mut t = mb2_model::transcript::Transcript::new();
+        let Some(Ok(mbi)) = catch(|| unsafe { multiboot2::BootInformation::load((p as *const u8).cast()) }) else {
+            t.push("load", Val::Panic);
+            return t;
+        };
+        t.push("load", Val::Txt("Ok".into()));
+        t.push("tags", catch(|| mbi.tags().count()).map_or(Val::Panic, |n| Val::U(n as u64)));
+        t.push("modules", catch(|| mbi.module_tags().count()).map_or(Val::Panic, |n| Val::U(n as u64)));
+        t.push("last_module", catch(|| mbi.module_tags().last().map(|m| m as *const _ as *const u8 as usize - p)).map_or(Val::Panic, |o| o.map_or(Val::None, |o| Val::U(o as u64))));
+        t.push("g.cmdline", catch(|| mbi.command_line_tag().is_some()).map_or(Val::Panic, Val::B));
+        t.push("g.efi_mmap", catch(|| mbi.efi_memory_map_tag().is_some()).map_or(Val::Panic, Val::B));
+        t.push("g.custom_end", catch(|| mbi.get_tag::<multiboot2::EndTag>().map(|e| e as *const _ as *const u8 as usize - p)).map_or(Val::Panic, |o| o.map_or(Val::None, |o| Val::U(o as u64))));
+        t.push("dbg", catch(|| format!("{mbi:?}").len()).map_or(Val::Panic, |_| Val::Ok));
+        t
+    });
+    match h.map(|h| h.join()) {
+        Ok(Ok(t)) => t,
+        _ => {
+            let mut t = mb2_model::transcript::Transcript::new();
+            t.push("thread", Val::Panic);
+            t
+        }
+    }
+}
+
+pub fn eval_many(c: &ManyCase, obs: &mut Obs) -> Result<(), String> {
+    if c.fillers > 200_000 || c.modules_at.len() > 8 || c.filler_type <= 21 {
+        return Err("malformed case".into());
+    }
+    let region = many_region(c);
+    let ts = region.len();
+    obs.class(format!("fillers-10^{}", (c.fillers.max(1) as f64).log10().floor() as u32));
+    obs.nontrivial(fnv(format!("{c:?}").as_bytes()));
+    obs.sample(json!({"filler_tags": c.fillers, "module_tags_at": c.modules_at, "region_bytes": ts, "stack": SMALL_STACK}));
+    let t = match sbx::with_guarded(&region, 8, Place::End, |p, _| many_exercise(p)) {
+        Boxed::Done(t) => t,
+        Boxed::Crash(s) => return Err(format!("{} filler tags, modules at {:?}, 1 MiB stack: the process crashed: {s}", c.fillers, c.modules_at)),
+        Boxed::Inconclusive(w) => {
+            obs.inconclusive(w);
+            return Ok(());
+        }
+    };
+    let n_mod = c.modules_at.len() as u64;
+    let total = c.fillers as u64 + n_mod + 1;
+    let want = [("load", Val::Txt("Ok".into())), ("tags", Val::U(total)), ("modules", Val::U(n_mod)), ("g.cmdline", Val::B(false)), ("g.efi_mmap", Val::B(false)), ("g.custom_end", Val::U(ts as u64 - 8)), ("dbg", Val::Ok)];
+    for (k, v) in want {
+        if t.get(k) != Some(&v) {
+            return Err(format!("{} filler tags, modules at {:?}: {k}: expected {}, got {:?}", c.fillers, c.modules_at, v.render(), t.get(k).map(|x| x.render())));
+        }
+    }
+    Ok(())
+}
+
+fn enumerate_many(ctx: &Ctx) -> Box<dyn Iterator<Item = ManyCase>> {
+    let mut v = Vec::new();
+    let sizes: &[u32] = if ctx.tier == Tier::Thorough { &[0, 1, 100, 5_000, 20_000, 50_000, 100_000, 200_000] } else { &[0, 1, 100, 5_000, 20_000, 60_000] };
+    for &n in sizes {
+        v.push(ManyCase { fillers: n, modules_at: vec![], filler_type: 0x1234 });
+        v.push(ManyCase { fillers: n, modules_at: vec![0, n], filler_type: 22 });
+        v.push(ManyCase { fillers: n, modules_at: vec![n / 2, n / 2, n], filler_type: 0xFFFF_FFFF });
+    }
+    Box::new(v.into_iter())
+}
+
+fn strategy_many(_: &Ctx) -> BoxedStrategy<ManyCase> {
+    (prop_oneof![3 => 0u32..2000, 1 => 2000u32..60_000], proptest::collection::vec(any::<u32>(), 0..4), 22u32..)
+        .prop_map(|(fillers, at, filler_type)| ManyCase { fillers, modules_at: at.into_iter().map(|x| x % (fillers + 1)).collect(), filler_type })
+        .boxed()
+}
+
 pub fn subs() -> Vec<Box<dyn Sub>> {
     vec![
+        Box::new(PropSub::<ManyCase> {
+            name: "many-tags",
+            rule: "very long tag lists: 0 .. 60 000 (thorough 200 000) 8-byte custom tags with 0..=3 module tags at chosen positions, exercised (load, tags().count(), module_tags().count()/last(), getters that have to walk the whole list, Debug of the boot information) on a thread with a 1 MiB stack inside the sandbox child, so that stack consumption that grows with the number of tags (recursion) becomes a crash. Oracle: no crash, counts and offsets equal the model. Every case is non-trivial; distinct by case",
+            profiles: Profiles::Both,
+            quick: 60,
+            thorough: 2000,
+            strategy: strategy_many,
+            enumerate: Some(enumerate_many),
+            enum_exhaustive: false,
+            eval: eval_many,
+        }),
         Box::new(PropSub::<Case> {
             name: "region",
             rule: "adversarial regions built by construction (0..=8, thorough 12, conformant tag images of all 22 kinds + custom types with tampered size words, counts, strides, indices, lengths, type bytes, terminators; random extra bytes; missing/invalid end tag; total size not a multiple of 8 / shortened / tiny) placed flush against a PROT_NONE page (80% end, 20% start) in a forked child; program = load, 4 region accessors, tags() walk incl. next-after-None, every item viewed as its typed tag with all accessors and sub-iterators (EFI, ELF, memory areas, palette), 22 typed getters + deprecated elf_sections(), module_tags(), Debug of every tag / iterator / the boot information ({:?} and {:#?}; 75% of cases). Oracle: no signal, step bounds, every returned reference/slice/str inside the declared region and inside the padded extent of the tag it came from. Non-trivial = loads and >=1 typed view of a kind with stored counts/lengths; distinct by hash(region, debug flag)",
